@@ -11,6 +11,10 @@ subprocess.run([os.path.join(build.BIN, "harness"), "-mode", "c02", "-seed", "1"
                 "-stride", "1", "-out", out], check=True)
 cases = [json.loads(l) for l in open(out)]
 os.unlink(out)
+# every pair inside every one-level context (demonstrates classes that are harmless on their own)
+subprocess.run([os.path.join(build.BIN, "harness"), "-mode", "c02ctx", "-out", out], check=True)
+cases += [json.loads(l) for l in open(out)]
+os.unlink(out)
 reqs = [f"(c02 {c['dump']} s{c['renders'][1]['sql']})" for c in cases]
 ans = corr.model_answers(reqs)
 demo, others = {}, set()
